@@ -235,7 +235,7 @@ theorem relC_callee (hs : SimpSound s) (hS : ∀ a prog, codeOf codes a = some p
   simp only [calleeOfG] at henv ⊢
   refine ⟨⟨?_, rfl, StackRel.nil, henv, hRk.subst.same rfl rfl, MemRel.nil I, MemRel.nil I⟩, ?_, ?_, ?_,
     hcb t prog hc, ?_, hbal,
-    List.Forall₂.cons ⟨hRk, hthis, hinS, hdepth, hcode, rfl, rfl, hWS.congr (fun a _ => hstores a), hsb⟩ hconts⟩
+    List.Forall₂.cons ⟨hRk, hthis, hinS, hdepth, hcode, rfl, rfl, hWS.congr (fun a _ => hstores a), hsb, rfl⟩ hconts⟩
   · simp [calleeFrameV, hwcode, hc]
   · rcases hcall with rfl | rfl | rfl | rfl <;> simp [calleeFrameV, hthis]
   · rcases hcall with rfl | rfl | rfl | rfl <;>
@@ -546,20 +546,20 @@ theorem RelC.withConds (hs : SimpSound s) (hrel : RelC I p S w0 cs w f kcs) {con
 
 /-- BALANCE / SELFBALANCE: no claim, a stack underflow, or one successor whose path is the old one with the
     conditions `balance_of` appends -/
-def BalCorr (I : Interp) (p : Evm.Params) (S : Nat → Prop) (w0 : Evm.World) (s : Simp) (cs : CState) (w : Evm.World)
-    (f : Evm.Frame) (kcs : List CCont) (lo : LocalOut) : Prop :=
+def BalCorr (I : Interp) (p : Evm.Params) (S : Nat → Prop) (w0 : Evm.World) (s : Simp) (G : Prop) (cs : CState)
+    (w : Evm.World) (f : Evm.Frame) (kcs : List CCont) (lo : LocalOut) : Prop :=
   (∃ e, lo = { ends := [e] } ∧ e.st = cs.st ∧ ((∃ r', e.out = .stuck r') ∨ e.tag ≠ .normal)) ∨
   (∃ h, lo = localHalt cs.st h ∧ haltWith h [] = h ∧ Evm.step p w f = .halt w h) ∨
   (∃ (cs' : CState) (f' : Evm.Frame) (conds : List B) (X : SState),
       lo = { next := [cs'] } ∧ (∀ c ∈ conds, c.WF) ∧ X.path = cs.st.path ∧
       cs'.st.path = (conds.foldl (addCond s) X).path ∧ cs'.conts = cs.conts ∧
       RelC I p S w0 cs' w f' kcs ∧ (∀ r, RunStack p w f kcs r ↔ RunStack p w f' kcs r) ∧
-      (BalBound w → ∀ c ∈ conds, c.eval I = true))
+      (G → ∀ c ∈ conds, c.eval I = true))
 
 theorem balOut_corr (hs : SimpSound s) (ho : OracleSound o) (hb : BalHyp I cfg w0)
     (hrel : RelC I p S w0 cs w f kcs) (hsat : Sat I cs.st.path) {op : Nat} (hop : opAt cs.code cs.st.pc = op)
     (hbalop : op = 0x31 ∨ op = 0x47) (hl : ¬ cs.st.stack.length > 1024) :
-    BalCorr I p S w0 s cs w f kcs (balOut s o cfg cs op) := by
+    BalCorr I p S w0 s (BalBound w) cs w f kcs (balOut s o cfg cs op) := by
   have hR := hrel.hR
   have hopc : (f.code[f.pc]?).getD 0 = op := hR.op_eq.trans hop
   have hlen := hR.stack.length
@@ -568,7 +568,7 @@ theorem balOut_corr (hs : SimpSound s) (ho : OracleSound o) (hb : BalHyp I cfg w
   have go : ∀ (k : T) (rest : List HV) (crest : List Nat) (a : Nat), k.WF → k.width = 160 → k.eval I = a →
       StackRel I rest crest →
       Evm.step p w f = .next w { f with stack := w.balanceOf a % Evm.W :: crest, pc := f.pc + 1 } →
-      BalCorr I p S w0 s cs w f kcs
+      BalCorr I p S w0 s (BalBound w) cs w f kcs
         (match balanceOfM s o cfg cs.st.path cs.bal k with
          | none => localStuck cs.st (.unsupported op)
          | some (v, conds) =>
@@ -636,6 +636,394 @@ theorem balOut_corr (hs : SimpSound s) (ho : OracleSound o) (hb : BalHyp I cfg w
           rw [evm_balance hopc hlc]; unfold Evm.op1; rw [hc0]
         exact go (asZ3 160 r) rest crest (Evm.addrMask a) k1 k2 k3 hrest hstep
       · exact Or.inl ⟨_, rfl, rfl, Or.inl ⟨_, rfl⟩⟩
+
+end
+
+/-! ### SHA3 -/
+
+theorem isShaOp_iff (op : Nat) : isShaOp op = true ↔ op = 0x20 := by simp [isShaOp]
+
+/-- the valuation interprets `f_sha3_<8n>` as the reference's hash of the `n` bytes (`f_sha3_0`: of no bytes), and
+    the model hashes concrete data with the reference's hash -/
+structure ShaInterp (I : Interp) (p : Evm.Params) (cfg : Cfg) : Prop where
+  empty : I.bv "f_sha3_0" 256 % 2 ^ 256 = p.keccak [] % Evm.W
+  app : ∀ bs : List Nat, (∀ b ∈ bs, b < 256) → bs ≠ [] →
+    I.uf1 (shaName (8 * bs.length)) 256 (Evm.bytesToNat bs) % 2 ^ 256 = p.keccak bs % Evm.W
+  conc : ∀ bs : List Nat, (∀ b ∈ bs, b < 256) → cfg.keccak bs % 2 ^ 256 = p.keccak bs % Evm.W
+
+/-- the conditions `sha3_data` appends at this state are true under `I` (they are assumptions — the digest is
+    non-zero and at most 2^256 − 2^64, `f_inv_sha3_*` invert the hash on its low 160 bits —, not consequences) -/
+def ShaOK (I : Interp) (s : Simp) (cfg : Cfg) (cs : CState) : Prop :=
+  cfg.sha3 = true → ∀ lv zv rest sz1 loc sz2 size, cs.st.stack = lv :: zv :: rest → toBV256 s lv = .bv sz1 (.con loc) →
+    toBV256 s zv = .bv sz2 (.con size) → ∀ c ∈ (shaData cfg (readMem cs.st.mem loc size)).2, c.eval I = true
+
+section
+variable {I : Interp}
+
+theorem litBytes_eval : ∀ {bs : List T} {ns : List Nat}, litBytes? bs = some ns →
+    bs.map (·.eval I) = ns.map (· % 256)
+  | [], ns, h => by simp only [litBytes?, Option.some.injEq] at h; subst h; rfl
+  | b :: rest, ns, h => by
+    simp only [litBytes?] at h
+    cases hb : litByte? b with
+    | none => simp [hb] at h
+    | some n =>
+      cases hr : litBytes? rest with
+      | none => simp [hb, hr] at h
+      | some ms =>
+        simp only [hb, hr, Option.some.injEq] at h
+        subst h
+        have : b = .lit 8 n := by
+          unfold litByte? at hb
+          split at hb
+          · rename_i b'; simp only [Option.some.injEq] at hb; subst hb; rfl
+          · cases hb
+        subst this
+        simp only [List.map_cons, litBytes_eval hr]
+        rfl
+
+theorem concatBytes_eval {bs : List T} (hb : ∀ b ∈ bs, b.WF ∧ b.width = 8) (hne : bs ≠ []) :
+    (concatBytes bs).WF ∧ (concatBytes bs).width = 8 * bs.length ∧
+      (concatBytes bs).eval I = Evm.bytesToNat (bs.map (·.eval I)) := by
+  match bs, hne with
+  | b :: rest, _ =>
+    obtain ⟨bwf, bw⟩ := hb b (List.mem_cons_self ..)
+    obtain ⟨h1, h2, h3⟩ := concat_foldl_ok (I := I) rest b bwf (fun x hx => hb x (List.mem_cons_of_mem _ hx))
+    refine ⟨h1, ?_, ?_⟩
+    · simp only [concatBytes, h2, bw, List.length_cons]; omega
+    · simp only [concatBytes, h3, Evm.bytesToNat, List.map_cons, List.foldl_cons]
+      have hlt := T.eval_lt I b bwf
+      rw [bw] at hlt
+      rw [Nat.mod_eq_of_lt hlt]; norm_num
+
+end
+
+section
+variable {I : Interp} {p : Evm.Params} {S : Nat → Prop} {w0 : Evm.World}
+variable {cs : CState} {w : Evm.World} {f : Evm.Frame} {kcs : List CCont}
+variable {s : Simp} {cfg : Cfg}
+
+/-- what `sha3_data` returns on related bytes: a word denoting the reference's digest, and well-formed conditions -/
+theorem shaData_ok (hi : ShaInterp I p cfg) {bytes : List T} {cbytes : List Nat} (hm : MemRel I bytes cbytes)
+    {v : HV ⊕ T} {conds : List B} (h : shaData cfg bytes = (some v, conds)) :
+    (∀ c ∈ conds, c.WF) ∧
+    (match v with
+     | .inl hv => WordRel I hv (p.keccak cbytes % Evm.W)
+     | .inr t => t.WF ∧ t.eval I % 2 ^ 256 = p.keccak cbytes % Evm.W) := by
+  obtain ⟨hwf, hev⟩ := hm
+  have hlt : ∀ b ∈ cbytes, b < 256 := by
+    intro b hb
+    rw [← hev] at hb
+    obtain ⟨t, ht, rfl⟩ := List.mem_map.1 hb
+    have := T.eval_lt I t (hwf t ht).1
+    rw [(hwf t ht).2] at this; exact this
+  have hlen : cbytes.length = bytes.length := by rw [← hev, List.length_map]
+  -- the expression and the injectivity witnesses are well-formed whenever the data is
+  have hexpr : ∀ (data : T), data.WF → (shaExpr (8 * bytes.length) data).WF ∧
+      (shaExpr (8 * bytes.length) data).width = 256 := by
+    intro data hd
+    unfold shaExpr
+    split
+    · exact ⟨(by decide : 0 < 256), rfl⟩
+    · exact ⟨⟨(by decide : 0 < 256), hd⟩, rfl⟩
+  have hdist : ∀ (data : T), data.WF → data.width = 8 * bytes.length →
+      ∀ c ∈ shaDistinct (8 * bytes.length) data, c.WF := by
+    intro data hd hdw c hc
+    obtain ⟨e1, e2⟩ := hexpr data hd
+    have hcore : (T.extract 159 0 (shaExpr (8 * bytes.length) data)).WF := ⟨e1, Nat.zero_le _, by rw [e2]; norm_num⟩
+    unfold shaDistinct at hc
+    simp only at hc
+    split at hc
+    · rw [List.mem_singleton.1 hc]
+      exact ⟨⟨(by decide : 0 < 256), hcore⟩, (by decide : 0 < 256), rfl⟩
+    · rename_i hb0
+      rcases List.mem_cons.1 hc with rfl | hc
+      · exact ⟨⟨Nat.pos_of_ne_zero hb0, hcore⟩, hd, hdw.symm⟩
+      · rw [List.mem_singleton.1 hc]
+        exact ⟨⟨(by decide : 0 < 256), hcore⟩, (by decide : 0 < 256), rfl⟩
+  unfold shaData at h
+  cases hl : litBytes? bytes with
+  | some ns =>
+    have hns : cbytes = ns.map (· % 256) := by rw [← hev]; exact litBytes_eval hl
+    have hhash : cfg.keccak (ns.map (· % 256)) % 2 ^ 256 = p.keccak cbytes % Evm.W := by
+      rw [← hns]; exact hi.conc cbytes hlt
+    have hw : WordRel I (.bv 256 (.con (cfg.keccak (ns.map (· % 256)) % 2 ^ 256))) (p.keccak cbytes % Evm.W) := by
+      rw [← hhash]; exact wordRel_con (Nat.mod_lt _ (by norm_num))
+    simp only [hl] at h
+    unfold shaConc at h
+    by_cases h1 : bytes.length > 128
+    · rw [if_pos h1] at h
+      simp only [Prod.mk.injEq, Option.some.injEq] at h
+      obtain ⟨rfl, rfl⟩ := h
+      exact ⟨fun c hc => absurd hc List.not_mem_nil, hw⟩
+    rw [if_neg h1] at h
+    by_cases h2 : cfg.keccak (ns.map (· % 256)) % 2 ^ 256 = 0 ∨ cfg.keccak (ns.map (· % 256)) % 2 ^ 256 > SHA_MAX
+    · rw [if_pos h2] at h; simp at h
+    rw [if_neg h2] at h
+    by_cases h3 : isCreate2Pre bytes = true
+    · rw [if_pos h3] at h; simp at h
+    rw [if_neg h3] at h
+    simp only [Prod.mk.injEq, Option.some.injEq] at h
+    obtain ⟨rfl, rfl⟩ := h
+    refine ⟨fun c hc => ?_, hw⟩
+    by_cases h0 : bytes.length = 0
+    · -- no data: the constant `f_sha3_0`
+      have hb0 : 8 * bytes.length = 0 := by omega
+      rw [hb0] at hc
+      simp only [shaExpr, shaDistinct, if_true] at hc
+      rcases List.mem_cons.1 hc with rfl | hc
+      · exact ⟨(by decide : 0 < 256), (by decide : 0 < 256), rfl⟩
+      · rw [List.mem_singleton.1 hc]
+        exact ⟨⟨(by decide : 0 < 256), (by decide : 0 < 256), Nat.zero_le _, by norm_num [T.width]⟩,
+          (by decide : 0 < 256), rfl⟩
+    · have hdw : (T.lit (8 * bytes.length) (Evm.bytesToNat (ns.map (· % 256)))).WF := by
+        show 0 < 8 * bytes.length; omega
+      obtain ⟨e1, e2⟩ := hexpr _ hdw
+      rcases List.mem_cons.1 hc with rfl | hc
+      · exact ⟨e1, (by decide : 0 < 256), e2⟩
+      · exact hdist _ hdw rfl c hc
+  | none =>
+    simp only [hl] at h
+    unfold shaSym at h
+    by_cases h3 : isCreate2Pre bytes = true
+    · rw [if_pos h3] at h; simp at h
+    rw [if_neg h3] at h
+    simp only [Prod.mk.injEq, Option.some.injEq] at h
+    obtain ⟨rfl, rfl⟩ := h
+    have hne : bytes ≠ [] := by
+      intro h0; rw [h0] at hl; simp [litBytes?] at hl
+    obtain ⟨d1, d2, d3⟩ := concatBytes_eval (I := I) hwf hne
+    obtain ⟨e1, e2⟩ := hexpr (concatBytes bytes) d1
+    have hb0 : ¬ 8 * bytes.length = 0 := by
+      have : bytes.length ≠ 0 := fun h => hne (List.eq_nil_of_length_eq_zero h)
+      omega
+    refine ⟨fun c hc => ?_, e1, ?_⟩
+    · rcases List.mem_append.1 hc with hc | hc
+      · rcases List.mem_cons.1 hc with rfl | hc
+        · exact ⟨e1, (by decide : 0 < 256), e2⟩
+        · rw [List.mem_singleton.1 hc]; exact ⟨e1, (by decide : 0 < 256), e2⟩
+      · exact hdist _ d1 d2 c hc
+    · have hne' : cbytes ≠ [] := by rw [← hev]; simpa using hne
+      simp only [shaExpr, if_neg hb0, T.eval, d3, hev]
+      rw [← hlen, Nat.mod_mod]
+      exact hi.app cbytes hlt hne'
+
+theorem shaOK_off {I : Interp} {s : Simp} {cfg : Cfg} {cs : CState} (h : cfg.sha3 = false) : ShaOK I s cfg cs :=
+  fun h' => by rw [h] at h'; cases h'
+
+/-- the byte string `d` is an *ideal* hash input for `I`: its digest is non-zero and at most 2^256 − 2^64, and the
+    uninterpreted inverses `f_inv_sha3_<bits>` / `f_inv_sha3_size` map the digest's low 160 bits back to it -/
+structure HashIdeal (I : Interp) (p : Evm.Params) (d : List Nat) : Prop where
+  nz : p.keccak d % Evm.W ≠ 0
+  le : p.keccak d % Evm.W ≤ SHA_MAX
+  inv : d ≠ [] → I.uf1 (shaInvName (8 * d.length)) (8 * d.length) (p.keccak d % Evm.W % 2 ^ 160) %
+    2 ^ (8 * d.length) = Evm.bytesToNat d
+  size : I.uf1 "f_inv_sha3_size" 256 (p.keccak d % Evm.W % 2 ^ 160) % 2 ^ 256 = 8 * d.length % 2 ^ 256
+
+theorem eq_eval_true {I : Interp} {a b : T} (h : a.eval I = b.eval I) : (B.cmp .eq a b).eval I = true := by
+  simp only [B.eval, CmpOp.eval, h, beq_self_eq_true]
+
+/-- hashing an ideal input: every condition `sha3_data` appends is true -/
+theorem shaData_true (hi : ShaInterp I p cfg) {bytes : List T} {cbytes : List Nat} (hm : MemRel I bytes cbytes)
+    (hid : HashIdeal I p cbytes) : ∀ c ∈ (shaData cfg bytes).2, c.eval I = true := by
+  obtain ⟨hwf, hev⟩ := hm
+  have hlt : ∀ b ∈ cbytes, b < 256 := by
+    intro b hb
+    rw [← hev] at hb
+    obtain ⟨t, ht, rfl⟩ := List.mem_map.1 hb
+    have := T.eval_lt I t (hwf t ht).1
+    rw [(hwf t ht).2] at this; exact this
+  have hlen : cbytes.length = bytes.length := by rw [← hev, List.length_map]
+  have hWlt : p.keccak cbytes % Evm.W < 2 ^ 256 := Nat.mod_lt _ (by unfold Evm.W; norm_num)
+  have hexpr : ∀ data : T, data.eval I = Evm.bytesToNat cbytes →
+      (shaExpr (8 * bytes.length) data).eval I = p.keccak cbytes % Evm.W := by
+    intro data hd
+    unfold shaExpr
+    split
+    · have : cbytes = [] := List.eq_nil_of_length_eq_zero (by omega)
+      subst this
+      simp only [T.eval]; exact hi.empty
+    · have hne : cbytes ≠ [] := by intro h; subst h; simp at hlen; omega
+      simp only [T.eval, hd, ← hlen]
+      exact hi.app cbytes hlt hne
+  have hcore : ∀ data : T, data.eval I = Evm.bytesToNat cbytes →
+      (T.extract 159 0 (shaExpr (8 * bytes.length) data)).eval I = p.keccak cbytes % Evm.W % 2 ^ 160 := by
+    intro data hd
+    simp only [T.eval, hexpr data hd]; norm_num
+  have hdist : ∀ data : T, data.eval I = Evm.bytesToNat cbytes → data.width = 8 * bytes.length →
+      ∀ c ∈ shaDistinct (8 * bytes.length) data, c.eval I = true := by
+    intro data hd hdw c hc
+    unfold shaDistinct at hc
+    simp only at hc
+    have hsz : (T.uf1 "f_inv_sha3_size" 256 (T.extract 159 0 (shaExpr (8 * bytes.length) data))).eval I =
+        8 * bytes.length % 2 ^ 256 := by
+      show I.uf1 _ _ ((T.extract 159 0 (shaExpr (8 * bytes.length) data)).eval I) % 2 ^ 256 = _
+      rw [hcore data hd, hid.size, hlen]
+    split at hc
+    · rename_i h0
+      rw [List.mem_singleton.1 hc]
+      refine eq_eval_true ?_
+      rw [hsz, h0]; rfl
+    · have hne : cbytes ≠ [] := by intro h; subst h; simp at hlen; omega
+      rcases List.mem_cons.1 hc with rfl | hc
+      · refine eq_eval_true ?_
+        show I.uf1 _ _ ((T.extract 159 0 (shaExpr (8 * bytes.length) data)).eval I) % 2 ^ (8 * bytes.length) = _
+        rw [hcore data hd, hd, ← hlen]
+        exact hid.inv hne
+      · rw [List.mem_singleton.1 hc]
+        refine eq_eval_true ?_
+        rw [hsz]; rfl
+  unfold shaData
+  cases hl : litBytes? bytes with
+  | some ns =>
+    have hns : cbytes = ns.map (· % 256) := by rw [← hev]; exact litBytes_eval hl
+    simp only
+    unfold shaConc
+    (repeat' split) <;> intro c hc <;> try (exact absurd hc List.not_mem_nil)
+    have hd : (T.lit (8 * bytes.length) (Evm.bytesToNat (ns.map (· % 256)))).eval I = Evm.bytesToNat cbytes := by
+      simp only [T.eval, ← hns]
+      have := bytesToNat_lt cbytes
+      rw [hlen] at this
+      exact Nat.mod_eq_of_lt (by rw [Nat.pow_mul]; norm_num at this ⊢; exact this)
+    rcases List.mem_cons.1 hc with rfl | hc
+    · refine eq_eval_true ?_
+      rw [hexpr _ hd]
+      show _ = cfg.keccak (ns.map (· % 256)) % 2 ^ 256 % 2 ^ 256
+      rw [← hns, hi.conc cbytes hlt, Nat.mod_eq_of_lt hWlt]
+    · exact hdist _ hd rfl c hc
+  | none =>
+    simp only
+    unfold shaSym
+    split
+    · intro c hc; exact absurd hc List.not_mem_nil
+    · have hne : bytes ≠ [] := by
+        intro h0; rw [h0] at hl; simp [litBytes?] at hl
+      obtain ⟨d1, d2, d3⟩ := concatBytes_eval (I := I) hwf hne
+      rw [hev] at d3
+      intro c hc
+      rcases List.mem_append.1 hc with hc | hc
+      · rcases List.mem_cons.1 hc with rfl | hc
+        · show (!((shaExpr (8 * bytes.length) (concatBytes bytes)).eval I == (T.lit 256 0).eval I)) = true
+          rw [hexpr _ d3]
+          have := hid.nz
+          simpa [T.eval] using this
+        · rw [List.mem_singleton.1 hc]
+          show decide ((shaExpr (8 * bytes.length) (concatBytes bytes)).eval I ≤ (T.lit 256 SHA_MAX).eval I) = true
+          rw [hexpr _ d3, decide_eq_true_eq]
+          exact le_trans hid.le (le_of_eq (Nat.mod_eq_of_lt (by unfold SHA_MAX; norm_num)).symm)
+      · exact hdist _ d3 d2 c hc
+
+/-- `ShaOK` from ideal inputs: at this state, if the memory range about to be hashed denotes an ideal input -/
+theorem shaOK_of_ideal (hi : ShaInterp I p cfg) {f : Evm.Frame} (hmr : MemRel I cs.st.mem f.mem)
+    (hid : ∀ loc size, HashIdeal I p (Evm.readBytes f.mem loc size)) : ShaOK I s cfg cs :=
+  fun _ lv zv rest sz1 loc sz2 size _ _ _ => shaData_true hi (readMem_rel hmr loc size) (hid loc size)
+
+/-- **SHA3.** -/
+theorem shaOut_corr (hs : SimpSound s) (hi : ShaInterp I p cfg) (hmem : cfg.maxMem + 32 ≤ p.memLimit)
+    (hrel : RelC I p S w0 cs w f kcs) {op : Nat} (hop : opAt cs.code cs.st.pc = op) (hsha : op = 0x20)
+    (hl : ¬ cs.st.stack.length > 1024) :
+    BalCorr I p S w0 s (ShaOK I s cfg cs) cs w f kcs (shaOut s cfg cs op) := by
+  have hR := hrel.hR
+  subst hsha
+  have hopc : (f.code[f.pc]?).getD 0 = 0x20 := hR.op_eq.trans hop
+  have hlen := hR.stack.length
+  have hlc : ¬ f.stack.length > 1024 := by rw [← hlen]; exact hl
+  have hstk := hR.stack
+  unfold shaOut
+  simp only
+  by_cases hon : cfg.sha3 = true
+  swap
+  · have : (!cfg.sha3) = true := by simpa using hon
+    rw [if_pos this]; exact Or.inl ⟨_, rfl, rfl, Or.inl ⟨_, rfl⟩⟩
+  have : ¬ (!cfg.sha3) = true := by simp [hon]
+  rw [if_neg this]
+  cases hcs : cs.st.stack with
+  | nil =>
+    refine Or.inr (Or.inl ⟨.stackUnderflow, rfl, rfl, evm_sha3_short hopc hlc ?_⟩)
+    rw [← hlen, hcs]; simp
+  | cons lv r1 =>
+    rw [hcs] at hstk
+    obtain ⟨off, c1, hc1, hwo, hr1⟩ := hstk.cons_inv
+    simp only
+    split
+    · rename_i sz1 loc heq1
+      have e1 := toBV256_con hs hwo heq1
+      subst e1
+      cases r1 with
+      | nil =>
+        have := hr1.nil_inv
+        subst this
+        refine Or.inr (Or.inl ⟨.stackUnderflow, rfl, rfl, evm_sha3_short hopc hlc ?_⟩)
+        rw [hc1]; simp
+      | cons zv rest =>
+        obtain ⟨len, crest, hc2, hwl, hrest⟩ := hr1.cons_inv
+        subst hc2
+        simp only
+        split
+        · rename_i sz2 size heq2
+          have e2 := toBV256_con hs hwl heq2
+          subst e2
+          by_cases hm : size ≠ 0 ∧ loc + size > cfg.maxMem
+          · rw [if_pos hm]; exact Or.inl ⟨_, rfl, rfl, Or.inr (fun h => Tag.noConfusion h)⟩
+          rw [if_neg hm]
+          have hok : size = 0 ∨ loc + size ≤ p.memLimit := by
+            by_cases h0 : size = 0
+            · exact Or.inl h0
+            · right; have : ¬ loc + size > cfg.maxMem := fun h => hm ⟨h0, h⟩
+              omega
+          have hstep := evm_sha3 (p := p) (w := w) hopc hlc hc1 hok
+          have hmr := readMem_rel hR.mem loc size
+          cases hsd : shaData cfg (readMem cs.st.mem loc size) with
+          | mk vo conds =>
+            cases vo with
+            | none => exact Or.inl ⟨_, rfl, rfl, Or.inl ⟨_, rfl⟩⟩
+            | some v =>
+              obtain ⟨cwf, hval⟩ := shaData_ok hi hmr hsd
+              simp only
+              refine Or.inr (Or.inr ⟨_, _, conds, { cs.st with stack := rest }, rfl, cwf, rfl, ?_, rfl, ?_,
+                fun r => runStack_next hstep kcs r, fun hG c hc => ?_⟩)
+              · cases v <;> rfl
+              · cases v with
+                | inl hv =>
+                  refine hrel.withConds hs cwf (X := { cs.st with stack := rest })
+                    (st' := { (conds.foldl (addCond s) { cs.st with stack := rest }) with
+                                pc := (conds.foldl (addCond s) { cs.st with stack := rest }).pc + 1,
+                                stack := hv :: (conds.foldl (addCond s) { cs.st with stack := rest }).stack })
+                    rfl rfl rfl rfl ⟨_, rfl, rfl, rfl, rfl, rfl⟩
+                    ⟨touch_code .., touch_caller .., touch_value .., touch_this .., touch_calldata ..,
+                      touch_isStatic .., touch_depth ..⟩ ?_ ?_ ?_ ?_
+                  · show f.pc + 1 = (conds.foldl (addCond s) { cs.st with stack := rest }).pc + 1
+                    rw [addConds_pc, hR.pc]
+                  · show StackRel I (hv :: (conds.foldl (addCond s) { cs.st with stack := rest }).stack) _
+                    rw [addConds_stack]
+                    exact StackRel.cons hval hrest
+                  · show MemRel I (conds.foldl (addCond s) { cs.st with stack := rest }).mem (f.touch loc size).mem
+                    rw [addConds_mem, touch_mem]; exact hR.mem
+                  · show MemRel I (conds.foldl (addCond s) { cs.st with stack := rest }).returndata
+                      (f.touch loc size).returndata
+                    rw [addConds_returndata, touch_returndata]; exact hR.retdata
+                | inr t =>
+                  refine hrel.withConds hs cwf (X := { cs.st with stack := rest })
+                    (st' := pushTerm s (conds.foldl (addCond s) { cs.st with stack := rest }) t) rfl rfl rfl rfl
+                    ⟨_, rfl, rfl, rfl, rfl, rfl⟩
+                    ⟨touch_code .., touch_caller .., touch_value .., touch_this .., touch_calldata ..,
+                      touch_isStatic .., touch_depth ..⟩ ?_ ?_ ?_ ?_
+                  · show f.pc + 1 = (conds.foldl (addCond s) { cs.st with stack := rest }).pc + 1
+                    rw [addConds_pc, hR.pc]
+                  · show StackRel I (mkBV s (.term t) 256 ::
+                      (conds.foldl (addCond s) { cs.st with stack := rest }).stack) _
+                    rw [addConds_stack]
+                    exact StackRel.cons (wordRel_mkBV hs hval.1 hval.2) hrest
+                  · show MemRel I (conds.foldl (addCond s) { cs.st with stack := rest }).mem (f.touch loc size).mem
+                    rw [addConds_mem, touch_mem]; exact hR.mem
+                  · show MemRel I (conds.foldl (addCond s) { cs.st with stack := rest }).returndata
+                      (f.touch loc size).returndata
+                    rw [addConds_returndata, touch_returndata]; exact hR.retdata
+              · have := hG hon lv zv rest sz1 loc sz2 size hcs heq1 heq2 c
+                rw [hsd] at this
+                exact this hc
+        · exact Or.inl ⟨_, rfl, rfl, Or.inl ⟨_, rfl⟩⟩
+    · exact Or.inl ⟨_, rfl, rfl, Or.inl ⟨_, rfl⟩⟩
 
 end
 
@@ -1501,6 +1889,40 @@ theorem extOut_shape (o : Oracle) : LocalShape cs (extOut s cfg codes cs op) := 
   simp only
   (repeat' split) <;> first | shape_leaf | exact localShape_lift (s := s) (o := o) Shape.copy
 
+theorem shaOut_shape : LocalShape cs (shaOut s cfg cs op) := by
+  have go : ∀ (loc size : Nat) (rest : List HV), LocalShape cs
+      (match shaData cfg (readMem cs.st.mem loc size) with
+       | (none, _) => localStuck cs.st (.unsupported op)
+       | (some v, conds) =>
+         { next := [{ cs with st := match v with
+             | .inl hv => { (conds.foldl (addCond s) { cs.st with stack := rest }) with
+                              pc := (conds.foldl (addCond s) { cs.st with stack := rest }).pc + 1,
+                              stack := hv :: (conds.foldl (addCond s) { cs.st with stack := rest }).stack }
+             | .inr t => pushTerm s (conds.foldl (addCond s) { cs.st with stack := rest }) t }] }) := by
+    intro loc size rest
+    cases shaData cfg (readMem cs.st.mem loc size) with
+    | mk vo conds =>
+      cases vo with
+      | none => exact localShape_end rfl
+      | some v =>
+        refine localShape_next ?_ (Or.inl rfl)
+        cases v <;> exact addConds_path_ext s conds { cs.st with stack := rest }
+  unfold shaOut
+  simp only
+  split
+  · shape_leaf
+  · split
+    · shape_leaf
+    · split
+      · split
+        · shape_leaf
+        · split
+          · split
+            · shape_leaf
+            · exact go _ _ _
+          · shape_leaf
+      · shape_leaf
+
 theorem balOut_shape : LocalShape cs (balOut s o cfg cs op) := by
   have go : ∀ (k : T) (rest : List HV), LocalShape cs
       (match balanceOfM s o cfg cs.st.path cs.bal k with
@@ -1538,12 +1960,24 @@ section
 variable {s : Simp} {o : Oracle} {cfg : Cfg} {codes : List (Nat × List Nat)} {cs : CState}
 
 /-- `stepC` is `finish` of an instruction it decodes itself, or of the per-frame step (with its stack limit) -/
-theorem stepC_eq :
+theorem codesOf_off (hnc : cfg.create = false) : codesOf cfg codes cs = codes := by
+  simp [codesOf, hnc]
+
+/-- with `Cfg.create` off, CREATE is outside the model -/
+theorem createOut_off (hnc : cfg.create = false) {codes' : List (Nat × List Nat)} {op : Nat} :
+    createOut s o cfg codes' cs op = localStuck cs.st (.unsupported op) := by
+  simp [createOut, hnc]
+
+theorem stepC_eq (hnc : cfg.create = false) :
     stepC s o cfg codes cs =
-      if ¬ cs.st.stack.length > 1024 ∧ isCallOp (opAt cs.code cs.st.pc) = true then
+      if ¬ cs.st.stack.length > 1024 ∧ isCreateOp (opAt cs.code cs.st.pc) = true then
+        finish cs (localStuck cs.st (.unsupported (opAt cs.code cs.st.pc)))
+      else if ¬ cs.st.stack.length > 1024 ∧ isCallOp (opAt cs.code cs.st.pc) = true then
         finish cs (callOut s o cfg codes cs (opAt cs.code cs.st.pc))
       else if ¬ cs.st.stack.length > 1024 ∧ isBalOp (opAt cs.code cs.st.pc) = true then
         finish cs (balOut s o cfg cs (opAt cs.code cs.st.pc))
+      else if ¬ cs.st.stack.length > 1024 ∧ isShaOp (opAt cs.code cs.st.pc) = true then
+        finish cs (shaOut s cfg cs (opAt cs.code cs.st.pc))
       else if ¬ cs.st.stack.length > 1024 ∧ isLogOp (opAt cs.code cs.st.pc) = true then
         finish cs (logOut s cfg cs (opAt cs.code cs.st.pc))
       else if ¬ cs.st.stack.length > 1024 ∧ isExtOp (opAt cs.code cs.st.pc) = true then
@@ -1553,48 +1987,57 @@ theorem stepC_eq :
   simp only
   by_cases hl : cs.st.stack.length > 1024
   · simp only [hl, if_true, not_true_eq_false, false_and, if_false]; rfl
-  · simp only [hl, if_false, not_false_eq_true, true_and]
+  · simp only [hl, if_false, not_false_eq_true, true_and, codesOf_off hnc, createOut_off hnc]
 
 /-- the local output `stepC` finishes, with its shape -/
-theorem stepC_local : ∃ lo, stepC s o cfg codes cs = finish cs lo ∧ LocalShape cs lo := by
-  rw [stepC_eq]
+theorem stepC_local (hnc : cfg.create = false) :
+    ∃ lo, stepC s o cfg codes cs = finish cs lo ∧ LocalShape cs lo := by
+  rw [stepC_eq hnc]
+  split
+  · exact ⟨_, rfl, fun c hc => by simp [localStuck] at hc, fun e he => by
+      simp only [localStuck, List.mem_singleton] at he; subst he; rfl⟩
   split
   · exact ⟨_, rfl, callOut_shape⟩
   · split
     · exact ⟨_, rfl, balOut_shape⟩
     · split
-      · exact ⟨_, rfl, logOut_shape⟩
+      · exact ⟨_, rfl, shaOut_shape⟩
       · split
-        · exact ⟨_, rfl, extOut_shape o⟩
-        · refine ⟨_, rfl, fun c hc => ?_, fun e he => stepL_end_path he⟩
-          obtain ⟨st', hm', rfl⟩ := List.mem_map.1 hc
-          exact ⟨stepL_next_path hm', Or.inl rfl⟩
+        · exact ⟨_, rfl, logOut_shape⟩
+        · split
+          · exact ⟨_, rfl, extOut_shape o⟩
+          · refine ⟨_, rfl, fun c hc => ?_, fun e he => stepL_end_path he⟩
+            obtain ⟨st', hm', rfl⟩ := List.mem_map.1 hc
+            exact ⟨stepL_next_path hm', Or.inl rfl⟩
 
-theorem stepC_next_path {cs' : CState} (h : cs' ∈ (stepC s o cfg codes cs).next) :
+theorem stepC_next_path (hnc : cfg.create = false) {cs' : CState}
+    (h : cs' ∈ (stepC s o cfg codes cs).next) :
     ∃ ext, cs'.st.path = cs.st.path ++ ext := by
-  obtain ⟨lo, e, hsh⟩ := stepC_local (s := s) (o := o) (cfg := cfg) (codes := codes) (cs := cs)
+  obtain ⟨lo, e, hsh⟩ := stepC_local (s := s) (o := o) (cfg := cfg) (codes := codes) (cs := cs) hnc
   rw [e] at h
-  rcases mem_finish_next h with hm | ⟨e', he', k, ks, h', _, _, _, rfl⟩
+  rcases mem_finish_next_shape h with hm | ⟨e', he', hp, _⟩
   · exact (hsh.1 cs' hm).1
-  · exact ⟨[], by simp [resume, hsh.2 e' he']⟩
+  · exact ⟨[], by rw [hp, hsh.2 e' he']; simp⟩
 
-theorem stepC_end_path {ce : CEnd} (h : ce ∈ (stepC s o cfg codes cs).ends) : ce.e.st.path = cs.st.path := by
-  obtain ⟨lo, e, hsh⟩ := stepC_local (s := s) (o := o) (cfg := cfg) (codes := codes) (cs := cs)
+theorem stepC_end_path (hnc : cfg.create = false) {ce : CEnd}
+    (h : ce ∈ (stepC s o cfg codes cs).ends) : ce.e.st.path = cs.st.path := by
+  obtain ⟨lo, e, hsh⟩ := stepC_local (s := s) (o := o) (cfg := cfg) (codes := codes) (cs := cs) hnc
   rw [e] at h
-  obtain ⟨e', hm, rfl, _⟩ := mem_finish_ends h
-  exact hsh.2 e' hm
+  obtain ⟨e', hm, hp⟩ := mem_finish_ends_shape h
+  rw [hp]; exact hsh.2 e' hm
 
 /-- the stack discipline of the suspended callers: a step keeps them, pushes one (a call) or pops one (a return);
     it never touches a suspended caller — in particular not its snapshot -/
-theorem stepC_conts {cs' : CState} (h : cs' ∈ (stepC s o cfg codes cs).next) :
+theorem stepC_conts (hnc : cfg.create = false) {cs' : CState}
+    (h : cs' ∈ (stepC s o cfg codes cs).next) :
     cs'.conts = cs.conts ∨ (∃ k, cs'.conts = k :: cs.conts) ∨ (∃ k, cs.conts = k :: cs'.conts) := by
-  obtain ⟨lo, e, hsh⟩ := stepC_local (s := s) (o := o) (cfg := cfg) (codes := codes) (cs := cs)
+  obtain ⟨lo, e, hsh⟩ := stepC_local (s := s) (o := o) (cfg := cfg) (codes := codes) (cs := cs) hnc
   rw [e] at h
-  rcases mem_finish_next h with hm | ⟨e', _, k, ks, h', hc, _, _, rfl⟩
+  rcases mem_finish_next_shape h with hm | ⟨e', _, _, k, hc⟩
   · rcases (hsh.1 cs' hm).2 with h1 | h1
     · exact Or.inl h1
     · exact Or.inr (Or.inl h1)
-  · exact Or.inr (Or.inr ⟨k, by rw [hc]; rfl⟩)
+  · exact Or.inr (Or.inr ⟨k, hc⟩)
 
 end
 
@@ -1636,7 +2079,7 @@ theorem CallCorr.complete {lo : LocalOut} (h : CallCorr I p S w0 cs w f kcs lo)
         fun b hb => absurd hb List.not_mem_nil, wrelM_fullOf_keeps hrel ⟨rfl, rfl, rfl, rfl⟩⟩⟩)
   · exact Or.inl ⟨cs', by simp, by rw [hp]; exact hsat, w', f', kcs', hrel', (hiff r).1 hrun, fun hC => hbb' (hbb hC)⟩
 
-theorem BalCorr.sound (hs : SimpSound s) {lo : LocalOut} (h : BalCorr I p S w0 s cs w f kcs lo) :
+theorem BalCorr.sound (hs : SimpSound s) {G : Prop} {lo : LocalOut} (h : BalCorr I p S w0 s G cs w f kcs lo) :
     LocalSound I p S w0 cs w f kcs lo := by
   rcases h with hno | hh | ⟨cs', f', conds, X, rfl, cwf, hX, hp, hk, hrel', hiff, _⟩
   · exact CallCorr.sound (Or.inl hno)
@@ -1646,16 +2089,16 @@ theorem BalCorr.sound (hs : SimpSound s) {lo : LocalOut} (h : BalCorr I p S w0 s
     subst hm
     exact ⟨w, f', kcs, hrel', fun r hr => (hiff r).2 hr⟩
 
-theorem BalCorr.complete (hs : SimpSound s) {lo : LocalOut} (h : BalCorr I p S w0 s cs w f kcs lo)
+theorem BalCorr.complete (hs : SimpSound s) {G : Prop} {lo : LocalOut} (h : BalCorr I p S w0 s G cs w f kcs lo)
     (hrel : RelC I p S w0 cs w f kcs) (hsat : Sat I cs.st.path) {r : Evm.World × Evm.Halt}
-    (hrun : RunStack p w f kcs r) {C : Prop} (hC : C) (hbb : BBAll C w kcs) :
+    (hrun : RunStack p w f kcs r) {C : Prop} (hG : G) (hbb : BBAll C w kcs) :
     LocalComplete I p S w0 C cs w f r lo := by
   rcases h with hno | hh | ⟨cs', f', conds, X, rfl, cwf, hX, hp, hk, hrel', hiff, htrue⟩
   · exact CallCorr.complete (Or.inl hno) hrel hsat hrun hbb
   · exact CallCorr.complete (Or.inr (Or.inl hh)) hrel hsat hrun hbb
   · refine Or.inl ⟨cs', by simp, ?_, w, f', kcs, hrel', (hiff r).1 hrun, hbb⟩
     rw [hp, addConds_sat hs cwf, hX]
-    exact ⟨hsat, htrue (hbb hC).1⟩
+    exact ⟨hsat, htrue hG⟩
 
 /-- **a value-bearing call, soundness.** -/
 theorem valueCase_sound (hs : SimpSound s) (ho : OracleSound o) (hb : BalHyp I cfg w0)
@@ -1799,13 +2242,18 @@ theorem stepC_sound (hs : SimpSound s) (hI : I.Std) (hmem : cfg.maxMem + 32 ≤ 
     (hS : ∀ a prog, codeOf codes a = some prog → S a)
     (hcb : ∀ a prog, codeOf codes a = some prog → ∀ b ∈ prog, b < 256)
     (hob : cfg.balances = true → OracleSound o ∧ BalHyp I cfg w0)
+    (hsi : cfg.sha3 = true → ShaInterp I p cfg) (hnc : cfg.create = false)
     (hrel : RelC I p S w0 cs w f kcs) (hsat : Sat I cs.st.path) :
     (∀ cs' ∈ (stepC s o cfg codes cs).next, Sat I cs'.st.path → ∃ w' f' kcs', RelC I p S w0 cs' w' f' kcs' ∧
         ∀ r, RunStack p w' f' kcs' r → RunStack p w f kcs r) ∧
     (∀ ce ∈ (stepC s o cfg codes cs).ends, ce.e.tag = .normal → ∀ h, ce.e.out = .halt h →
         ∃ w', RunStack p w f kcs (w', haltWith h (ce.e.data.map (·.eval I))) ∧
           WRelM I S w0 w' (stoOf ce.stores) (evalLogs I ce.logs) (balSem I w0 ce.bal)) := by
-  rw [stepC_eq]
+  rw [stepC_eq hnc]
+  split
+  · have hno : CallCorr I p S w0 cs w f kcs (localStuck cs.st (.unsupported (opAt cs.code cs.st.pc))) :=
+      Or.inl ⟨_, rfl, rfl, Or.inl ⟨_, rfl⟩⟩
+    exact finish_sound hrel hsat hno.sound
   split
   · rename_i hc
     refine finish_sound hrel hsat ?_
@@ -1832,12 +2280,23 @@ theorem stepC_sound (hs : SimpSound s) (hI : I.Std) (hmem : cfg.maxMem + 32 ≤ 
         exact hno.sound
     · split
       · rename_i hc
-        exact finish_sound hrel hsat (logOut_corr hs hmem hrel rfl ((isLogOp_iff _).1 hc.2) hc.1).sound
+        refine finish_sound hrel hsat ?_
+        by_cases hon : cfg.sha3 = true
+        · exact (shaOut_corr hs (hsi hon) hmem hrel rfl ((isShaOp_iff _).1 hc.2) hc.1).sound hs
+        · have hno : CallCorr I p S w0 cs w f kcs (shaOut s cfg cs (opAt cs.code cs.st.pc)) := by
+            unfold shaOut
+            have : (!cfg.sha3) = true := by simpa using hon
+            simp only [this, if_true]
+            exact Or.inl ⟨_, rfl, rfl, Or.inl ⟨_, rfl⟩⟩
+          exact hno.sound
       · split
         · rename_i hc
-          exact finish_sound hrel hsat
-            ((extOut_corr (o := o) hs hmem hcodes hcb hrel hsat rfl ((isExtOp_iff _).1 hc.2) hc.1).sound hs hrel)
-        · exact finish_sound hrel hsat (local_step_sound hs hI hmem hrel hsat)
+          exact finish_sound hrel hsat (logOut_corr hs hmem hrel rfl ((isLogOp_iff _).1 hc.2) hc.1).sound
+        · split
+          · rename_i hc
+            exact finish_sound hrel hsat
+              ((extOut_corr (o := o) hs hmem hcodes hcb hrel hsat rfl ((isExtOp_iff _).1 hc.2) hc.1).sound hs hrel)
+          · exact finish_sound hrel hsat (local_step_sound hs hI hmem hrel hsat)
 
 /-- **stepC_complete.** -/
 theorem stepC_complete (hs : SimpSound s) (ho : OracleSound o) (hI : I.Std) (hmem : cfg.maxMem + 32 ≤ p.memLimit)
@@ -1845,13 +2304,18 @@ theorem stepC_complete (hs : SimpSound s) (ho : OracleSound o) (hI : I.Std) (hme
     (hS : ∀ a prog, codeOf codes a = some prog → S a)
     (hcb : ∀ a prog, codeOf codes a = some prog → ∀ b ∈ prog, b < 256)
     (hb : cfg.balances = true → BalHyp I cfg w0)
+    (hsi : cfg.sha3 = true → ShaInterp I p cfg) (hsok : ShaOK I s cfg cs) (hnc : cfg.create = false)
     (hrel : RelC I p S w0 cs w f kcs) (hsat : Sat I cs.st.path) {r : Evm.World × Evm.Halt}
     (hrun : RunStack p w f kcs r) (hbb : BBAll (cfg.balances = true) w kcs) :
     (∃ cs' ∈ (stepC s o cfg codes cs).next, Sat I cs'.st.path ∧ ∃ w' f' kcs', RelC I p S w0 cs' w' f' kcs' ∧
         RunStack p w' f' kcs' r ∧ BBAll (cfg.balances = true) w' kcs') ∨
     (∃ ce ∈ (stepC s o cfg codes cs).ends, EndCoversC I S w0 r ce) ∨
     (stepC s o cfg codes cs).bounded ≠ [] := by
-  rw [stepC_eq]
+  rw [stepC_eq hnc]
+  split
+  · have hno : CallCorr I p S w0 cs w f kcs (localStuck cs.st (.unsupported (opAt cs.code cs.st.pc))) :=
+      Or.inl ⟨_, rfl, rfl, Or.inl ⟨_, rfl⟩⟩
+    exact finish_complete hrel hsat hrun hbb (hno.complete hrel hsat hrun hbb)
   split
   · rename_i hc
     refine finish_complete hrel hsat hrun hbb ?_
@@ -1869,7 +2333,7 @@ theorem stepC_complete (hs : SimpSound s) (ho : OracleSound o) (hI : I.Std) (hme
       refine finish_complete hrel hsat hrun hbb ?_
       by_cases hbal : cfg.balances = true
       · exact (balOut_corr hs ho (hb hbal) hrel hsat rfl ((isBalOp_iff _).1 hc.2) hc.1).complete hs hrel hsat hrun
-          hbal hbb
+          (hbb hbal).1 hbb
       · have hno : CallCorr I p S w0 cs w f kcs (balOut s o cfg cs (opAt cs.code cs.st.pc)) := by
           unfold balOut
           have : (!cfg.balances) = true := by simpa using hbal
@@ -1878,14 +2342,26 @@ theorem stepC_complete (hs : SimpSound s) (ho : OracleSound o) (hI : I.Std) (hme
         exact hno.complete hrel hsat hrun hbb
     · split
       · rename_i hc
-        exact finish_complete hrel hsat hrun hbb
-          ((logOut_corr hs hmem hrel rfl ((isLogOp_iff _).1 hc.2) hc.1).complete hrel hsat hrun hbb)
+        refine finish_complete hrel hsat hrun hbb ?_
+        by_cases hon : cfg.sha3 = true
+        · exact (shaOut_corr hs (hsi hon) hmem hrel rfl ((isShaOp_iff _).1 hc.2) hc.1).complete hs hrel hsat hrun
+            hsok hbb
+        · have hno : CallCorr I p S w0 cs w f kcs (shaOut s cfg cs (opAt cs.code cs.st.pc)) := by
+            unfold shaOut
+            have : (!cfg.sha3) = true := by simpa using hon
+            simp only [this, if_true]
+            exact Or.inl ⟨_, rfl, rfl, Or.inl ⟨_, rfl⟩⟩
+          exact hno.complete hrel hsat hrun hbb
       · split
         · rename_i hc
           exact finish_complete hrel hsat hrun hbb
-            ((extOut_corr (o := o) hs hmem hcodes hcb hrel hsat rfl ((isExtOp_iff _).1 hc.2) hc.1).complete hs ho hrel
-              hsat hrun hbb)
-        · exact finish_complete hrel hsat hrun hbb (local_step_complete hs ho hI hmem hrel hsat hrun hbb)
+            ((logOut_corr hs hmem hrel rfl ((isLogOp_iff _).1 hc.2) hc.1).complete hrel hsat hrun hbb)
+        · split
+          · rename_i hc
+            exact finish_complete hrel hsat hrun hbb
+              ((extOut_corr (o := o) hs hmem hcodes hcb hrel hsat rfl ((isExtOp_iff _).1 hc.2) hc.1).complete hs ho
+                hrel hsat hrun hbb)
+          · exact finish_complete hrel hsat hrun hbb (local_step_complete hs ho hI hmem hrel hsat hrun hbb)
 
 end
 
